@@ -20,7 +20,7 @@ LEDGER_RULE = ("ledger stream: per case a fresh canister (network in {regtest x2
                "A case is non-trivial if it pushed >= 3 blocks; distinct by the hash of (network, threshold, mode, parent choices, budgets).")
 
 SYNC_RULE = ("sync stream: per case a fresh regtest canister (threshold 1-4, default or random fee table, manual async mode), then 12-45 (quick) / 30-120 (thorough) "
-             "random messages: heartbeats with unlimited or 0-9 step budgets (suspended at the get_successors await; further heartbeats overlap), scripted replies of the block "
+             "random messages: heartbeats with unlimited or 0-9 step budgets, or with an instruction counter that leaves only 0-3 iterations of the announced-header loop (suspended at the get_successors await; further heartbeats overlap), scripted replies of the block "
              "source (complete with 0-3 mined transaction-valid blocks on random parents plus bad elements at random positions: garbage, truncated, duplicate, orphan/redelivered, "
              "bad merkle root / duplicated last transaction, old timestamp, wrong bits, stable-only parent; partial replies split into 1+k pages, k in {0,1,2,3,5}; rejects; "
              "announced headers incl. garbage/duplicate/invalid), pre/post_upgrade with or without a threshold argument, set_config flips, gated endpoint calls with chosen "
@@ -29,7 +29,7 @@ SYNC_RULE = ("sync stream: per case a fresh regtest canister (threshold 1-4, def
 
 PROPS = {
     "C06": {
-        "extra_props": ["ReachAll"],
+        "extra_props": ["ReachAll", "FullCor", "FullCorExample"],
         "spec_ops": ["c walk done"],
         "streams": [{"name": "ledger", "quick": 160, "thorough": 1600}],
         "rule": LEDGER_RULE + " Interleaved page walks: a walk (page size 1-3) is started on a random address and its pages are fetched with pushes, ingestions and queries in between; `walk done` compares the concatenation with the ledger at the first tip. One directed case per four shards: a transaction with 300 outputs to one address, page size 200, first page before and later pages after the block stabilises (known finding F11).",
@@ -51,7 +51,7 @@ PROPS = {
         "assumptions": ["maxHeaders >= 1 (the constant is 100, generated)"],
     },
     "C08": {
-        "extra_props": ["ReachAll"],
+        "extra_props": ["ReachAll", "FullCor", "FullCorExample"],
         "spec_ops": ["c pausedsame"],
         "streams": [{"name": "ledger", "quick": 160, "thorough": 1600}, {"name": "sync", "quick": 64, "thorough": 800}],
         "rule": LEDGER_RULE + " Ingestion rounds with budgets 0-12 pause the anchor's ingestion at every position (inputs / outputs of every transaction); at each pause `pausedsame` compares the labelled answers of every query endpoint for every pool address with the ones taken before the ingestion began (specification column same=1, len=1), and the run continues with further slices; the final state is compared with the model, which is proved schedule-independent.",
@@ -62,6 +62,7 @@ PROPS = {
         "assumptions": ["instruction budget abstracted to one unit per input/output (the harness sets the performance counter accordingly)"],
     },
     "C09": {
+        "extra_props": ["FullCor", "FullCorExample"],
         "spec_ops": ["c upgrade", "c hb"],
         "streams": [{"name": "sync", "quick": 160, "thorough": 3200}, {"name": "ledger", "quick": 96, "thorough": 800}],
         "rule": SYNC_RULE + " Every upgrade line carries the labelled answers of all query endpoints (info, per pool address get_utxos and get_balance, headers, synced) before and after; the specification column says they are identical.",
@@ -113,7 +114,7 @@ PROPS = {
     "C10": {
         "model_spec_ops": ["c hb", "c reply"],
         "spec_ops": [],
-        "extra_props": ["BlockCodec", "FullSys", "FullSysExample"],
+        "extra_props": ["BlockCodec", "FullSys", "FullSysExample", "HeaderSlots"],
         "streams": [{"name": "sync", "quick": 256, "thorough": 3200}],
         "rule": SYNC_RULE,
         "explanation": "theorems: insert_block accepts iff parent in tree, not already a child of it, header valid (C11), body valid (C12) and push succeeds; rejected blocks return no state (atomic); in a response the first "
@@ -140,7 +141,7 @@ PROPS = {
     "C03": {
         "model_spec_ops": ["c advance"],
         "spec_ops": ["c advance"],
-        "extra_props": ["C03History"],
+        "extra_props": ["C03History", "FullCor", "FullCorExample"],
         "streams": [{"name": "ledger", "quick": 160, "thorough": 1600}, {"name": "sync", "quick": 80, "thorough": 800}],
         "rule": LEDGER_RULE + " After every ingestion opportunity the line `advance` records how many anchors were popped, whether the new anchor lies on the chain served before, and whether a stable child is still pending.",
         "explanation": "theorems: get_stable_child = some i iff child i satisfies the difficulty rule or (testnet/regtest) the depth rule, both directions, = none iff no child does, uniqueness; the selected child is always the "
@@ -151,7 +152,7 @@ PROPS = {
         "assumptions": ["threshold changes while an ingestion is paused are outside the modelled domain of the ledger stream (see DESIGN F13)"],
     },
     "C04": {
-        "extra_props": ["ReachAll"],
+        "extra_props": ["ReachAll", "FullCor", "FullCorExample"],
         "model_spec_ops": ["c cutat"],
         "spec_ops": ["c cutat"],
         "streams": [{"name": "ledger", "quick": 160, "thorough": 1600}],
@@ -235,7 +236,7 @@ PROPS = {
         "assumptions": ["payload elements are bytes (< 256)"],
     },
     "C14": {
-        "extra_props": ["NetSpelling"],
+        "extra_props": ["NetSpelling", "FullCor", "FullCorExample", "HeaderSlots"],
         "model_spec_ops": ["c call"],
         "spec_ops": [],
         "streams": [{"name": "sync", "quick": 160, "thorough": 3200}],
@@ -248,6 +249,7 @@ PROPS = {
         "assumptions": ["native build: a panic is the observable 'trap'; is_watchdog_caller/controller checks of set_config are wasm-only and not modelled"],
     },
     "C16": {
+        "extra_props": ["FullCor", "FullCorExample"],
         "model_spec_ops": ["c call"],
         "spec_ops": [],
         "streams": [{"name": "sync", "quick": 160, "thorough": 3200}],
@@ -260,6 +262,7 @@ PROPS = {
         "assumptions": ["the native mock of msg_cycles_available does not decrease after msg_cycles_accept; on the IC it does, which cannot matter because fee <= maximum - base"],
     },
     "C02": {
+        "extra_props": ["FullCor", "FullCorExample"],
         "model_spec_ops": ["c bestat"],
         "spec_ops": ["c bestat"],
         "streams": [{"name": "ledger", "quick": 160, "thorough": 1600}],
